@@ -51,6 +51,12 @@ CHECKS = {
  "C15": dict(level="other", design="2/C15", technique="z3 queries over dataclass-parameter facts and concrete mutation/copy/pickle probes for every class; symbolic execution of the real generated __eq__ on two independent symbolic instances per class",
    text="Facts (frozen, eq, slots, kw_only, generated __hash__/__eq__, immutable annotations) and concrete probes for all 1633 classes as queries over the finite table, plus a symbolic lemma: the generated __eq__/__ne__ of each class runs on two independent symbolic instances and must agree with an independent field-wise equality term on every path; models with a == b are concretised and hashed on the real classes.",
    note="Hash consistency relies on the stdlib dataclass contract (frozen and eq => hash of the field tuple) and is confirmed on the concretised models only."),
+ "C17": dict(level=MC, design="2/C17", technique="symbolic execution of the real write_new_batch/write_batch against an independent reference v2-batch encoder (z3 QF_UFBV, CRC-32C as an uninterpreted fold); timestamp derivations in Int/Real arithmetic with the IEEE standard model through recording stubs",
+   text="The real batch writer runs on a symbolic NewRecordBatch (1..3 records, all scalar fields over full ranges, null/opaque keys, values and headers with symbolic lengths) and its byte sequence must equal the reference encoding item by item; the CRC field must equal the uninterpreted fold of exactly the bytes that follow it. Base/max timestamps and per-record deltas are decided for every microsecond instant in integer/real arithmetic. One model per shape is replayed on the real writer and decoded by an independent concrete decoder.",
+   note="Layout harness uses five representative instants per record (BV arithmetic on symbolic instants is intractable); the R-mode lemma covers every instant but replaces the integer codecs by recording stubs (those are decided in C11). CRC polynomial trusted (A6)."),
+ "C18": dict(level=MC, design="2/C18", technique="symbolic execution of the real read_batch (and write_batch on its result) on reference-encoded batches over symbolic fields with CRC as an uninterpreted fold; symbolic single-byte corruption, magic byte and truncation on captured broker batches; record-timestamp conversion in Int/Real arithmetic",
+   text="A1/A2: the reader runs on a wire-first batch (symbolic header fields, offsets, payload lengths; CRC = fold over the right span) and must return every field as encoded and re-serialise to the same bytes. A3: on 5 concrete valid batches a byte from the CRC field to the end is overwritten at a symbolic position with a symbolic value; with the per-byte step-injectivity facts the only feasible outcome must be an exception; any model is replayed with the real crc32c. A4/A5: symbolic magic != 2, every truncation point.",
+   note="Known finding: the sub-second part of record timestamps is dropped (pinned by an existing test). Timestamps at representatives in the entity harness, whole domain of whole-second timestamps plus a millisecond window in the R-mode lemma. n <= 2 records; single corrupted byte; CRC-32C itself trusted (A6)."),
 }
 
 def cmd(i, tier):
